@@ -282,7 +282,7 @@ Proof.
       split; [reflexivity|]. split; [reflexivity|]. split.
       { apply (core_update h z1 x cl (mark cl) z2 _ n Hcore Hn); try reflexivity.
         unfold pay. cbn [fst snd]. eexists. split; [nthupd; reflexivity|].
-        cbn. repeat split; auto. discriminate. }
+        cbn. split; [reflexivity|]. split; [exact Hrf|]. intros _. destruct (Hkv Ecl) as [Hk _]. split; [exact Hk|reflexivity]. }
       split; [apply upd_length|].
       split. { intros w Hw. apply nth_upd_other. intros ->. apply Hw. rewrite ids_app, in_app_iff. right. left. reflexivity. }
       split. { rewrite !sid_app. cbn [sid map fst snd]. apply incl_refl. }
@@ -294,4 +294,409 @@ Proof.
       * exists c'. split; [apply in_app_iff; left; exact Hw|reflexivity].
       * exists cl. split; [apply in_app_iff; right; left; reflexivity|reflexivity].
       * exists c'. split; [apply in_app_iff; right; right; exact Hw|reflexivity].
+Qed.
+
+(** * The pool *)
+
+Definition poolok (h : heap) (zs : list (nat * cell)) (pl : list nat) : Prop :=
+  NoDup pl /\ Forall (fun p => ~ In p (ids_of zs) /\ exists n, nth_error h p = Some n /\ n_ref n = 0) pl.
+
+Lemma incl_sid_ids zs' zs : incl (sid zs') (sid zs) -> incl (ids_of zs') (ids_of zs).
+Proof.
+  intros H y Hy. apply in_map_iff in Hy. destruct Hy as ([y' c] & <- & Hin). cbn [fst].
+  assert (Hs : In (c_stamp c, y') (sid zs')) by (apply sid_in; eauto).
+  apply H, sid_in in Hs. destruct Hs as (c0 & Hin0 & _). apply (in_map fst) in Hin0. exact Hin0.
+Qed.
+
+Lemma poolok_step h h' zs zs' pl :
+  poolok h zs pl -> (forall w, ~ In w (ids_of zs) -> nth_error h' w = nth_error h w) ->
+  incl (ids_of zs') (ids_of zs) -> poolok h' zs' pl.
+Proof.
+  intros [Hnd Hf] Hfr Hincl. split; [exact Hnd|]. apply Forall_forall. intros p Hp.
+  destruct (proj1 (Forall_forall _ _) Hf p Hp) as (Hni & n & Hn & Hr). split.
+  - intros Hin. apply Hni. apply Hincl. exact Hin.
+  - exists n. rewrite Hfr by exact Hni. auto.
+Qed.
+
+Lemma poolok_notin h zs pl x : poolok h zs pl -> In x (ids_of zs) -> ~ In x pl.
+Proof.
+  intros [_ Hf] Hx Hin. destruct (proj1 (Forall_forall _ _) Hf x Hin) as (Hni & _). contradiction.
+Qed.
+
+Lemma poolok_put h zs pl x n :
+  poolok h zs pl -> ~ In x pl -> ~ In x (ids_of zs) -> nth_error h x = Some n -> n_ref n = 0 ->
+  poolok h zs (x :: pl).
+Proof.
+  intros [Hnd Hf] Hni Hx Hn Hr. split; [constructor; assumption|]. constructor; [|exact Hf]. split; [exact Hx|eauto].
+Qed.
+
+(** * Changing the reference counter of one node *)
+
+Lemma ref_update h zs p cl r :
+  core h zs -> In (p, cl) zs ->
+  exists n z1 z2,
+    zs = z1 ++ (p, cl) :: z2 /\ nth_error h p = Some n /\ n_st n = c_st cl /\ n_ref n = c_ref cl /\
+    (c_st cl <> StLast -> n_key n = c_key cl /\ n_val n = c_val cl) /\
+    core (upd h p (set_ref r)) (z1 ++ (p, cset_ref r cl) :: z2).
+Proof.
+  intros Hcore Hin. apply in_split in Hin. destruct Hin as (z1 & z2 & ->).
+  pose proof (co_pay _ _ Hcore) as Hpay. apply Forall_app in Hpay. destruct Hpay as [_ Hpay].
+  inversion Hpay as [|? ? (n & Hn & Hst & Hrf & Hkv) _]; subst. cbn [fst snd] in *.
+  exists n, z1, z2. split; [reflexivity|]. split; [exact Hn|]. split; [exact Hst|]. split; [exact Hrf|]. split; [exact Hkv|].
+  apply (core_update h z1 p cl (cset_ref r cl) z2 (set_ref r) n Hcore Hn); try reflexivity.
+  unfold pay. cbn [fst snd]. eexists. split; [apply nth_upd_same; exact Hn|]. cbn. split; [exact Hst|]. split; [reflexivity|]. exact Hkv.
+Qed.
+
+Lemma sid_update z1 p cl cl' z2 : c_stamp cl' = c_stamp cl ->
+  sid (z1 ++ (p, cl') :: z2) = sid (z1 ++ (p, cl) :: z2).
+Proof. intros H. rewrite !sid_app. cbn [sid map fst snd]. rewrite H. reflexivity. Qed.
+
+Lemma ids_update z1 p cl cl' z2 : ids_of (z1 ++ (p, cl') :: z2) = ids_of (z1 ++ (p, cl) :: z2).
+Proof. rewrite !ids_app. reflexivity. Qed.
+
+Lemma nodup_fst_fun {A B} (l : list (A * B)) a b b' :
+  NoDup (map fst l) -> In (a, b) l -> In (a, b') l -> b = b'.
+Proof.
+  induction l as [|[a0 b0] t IH]; intros Hnd H1 H2; [destruct H1|].
+  cbn [map fst] in Hnd. inversion Hnd as [|? ? Hni Hnd']; subst.
+  destruct H1 as [E1|H1], H2 as [E2|H2].
+  - congruence.
+  - injection E1 as -> ->. exfalso. apply Hni. apply (in_map fst) in H2. exact H2.
+  - injection E2 as -> ->. exfalso. apply Hni. apply (in_map fst) in H1. exact H1.
+  - eauto.
+Qed.
+
+Lemma stamp_unique zs st y y' :
+  NoDup (stamps_of zs) -> In (st, y) (sid zs) -> In (st, y') (sid zs) -> y = y'.
+Proof. intros Hnd. rewrite <- sid_fst in Hnd. apply nodup_fst_fun. exact Hnd. Qed.
+
+(** * Walking state and its transitions *)
+
+Definition refs_nonneg (zs : list (nat * cell)) : Prop := forall y c, In (y, c) zs -> 0 <= c_ref c.
+
+Record wst (h : heap) (hd : nat) (pl : list nat) (zs : list (nat * cell)) : Prop := mkWst {
+  ws_core : core h zs;
+  ws_pool : poolok h zs pl;
+  ws_head : hd_error (ids_of zs) = Some hd;
+  ws_refs : refs_nonneg zs
+}.
+
+Record wtr (h : heap) (zs : list (nat * cell)) (h' : heap) (zs' : list (nat * cell)) : Prop := mkWtr {
+  wt_len : length h' = length h;
+  wt_sid : incl (sid zs') (sid zs);
+  wt_last : forall d, List.last (ids_of zs') d = List.last (ids_of zs) d
+}.
+
+Lemma wtr_refl h zs : wtr h zs h zs.
+Proof. constructor; auto using incl_refl. Qed.
+
+Lemma wtr_trans h1 z1 h2 z2 h3 z3 : wtr h1 z1 h2 z2 -> wtr h2 z2 h3 z3 -> wtr h1 z1 h3 z3.
+Proof.
+  intros [A1 A2 A3] [B1 B2 B3]. constructor; [congruence|eapply incl_tran; eauto|intros d; rewrite B3; apply A3].
+Qed.
+
+(** * One iteration of [Map.next] *)
+
+Definition i_next_step (h : heap) (hd : nat) (pl : list nat) (p : nat) (n : node) : res (IMap.core * nat) :=
+  let r := n_ref n - 1 in
+  let h := upd h p (set_ref r) in
+  if nstate_eqb (n_st n) StDeleted && (r <=? 0) then
+    let np := n_next n in
+    '(h, nh) <- n_delete h p ;;
+    let hd := retarget hd nh in
+    let pl := p :: pl in
+    p' <- deref np ;;
+    n' <- get h p' ;;
+    Ok ((upd h p' (set_ref (n_ref n' + 1)), hd, pl), p')
+  else
+    p' <- deref (n_next n) ;;
+    n' <- get h p' ;;
+    Ok ((upd h p' (set_ref (n_ref n' + 1)), hd, pl), p').
+
+Lemma i_next_unfold f h hd pl p n :
+  nth_error h p = Some n -> n_st n <> StLast ->
+  i_next (S f) (h, hd, pl) p =
+  ('(c', p') <- i_next_step h hd pl p n ;;
+   n'' <- get (fst (fst c')) p' ;;
+   if nstate_eqb (n_st n'') StDeleted then i_next f c' p' else Ok (c', p')).
+Proof.
+  intros Hn Hst. cbn [i_next]. rewrite (get_ok _ _ _ Hn). cbn [bind]. unfold i_next_step.
+  destruct (n_st n); [congruence|reflexivity|reflexivity].
+Qed.
+
+Lemma in_zs_pay h zs y c : core h zs -> In (y, c) zs -> pay h (y, c).
+Proof. intros Hc Hin. exact (proj1 (Forall_forall _ _) (co_pay _ _ Hc) _ Hin). Qed.
+
+(* parking on the node reached: refCnt++ *)
+Lemma park_sim h hd pl zs y c :
+  wst h hd pl zs -> In (y, c) zs ->
+  exists n zs',
+    nth_error h y = Some n /\ n_ref n = c_ref c /\ n_st n = c_st c /\
+    cupd (c_stamp c) (cset_ref (c_ref c + 1)) (map snd zs) = map snd zs' /\
+    wst (upd h y (set_ref (n_ref n + 1))) hd pl zs' /\
+    wtr h zs (upd h y (set_ref (n_ref n + 1))) zs' /\
+    In (y, cset_ref (c_ref c + 1) c) zs'.
+Proof.
+  intros [Hcore Hpool Hhd Hrefs] Hin.
+  destruct (ref_update h zs y c (c_ref c + 1) Hcore Hin) as (n & z1 & z2 & -> & Hn & Hst & Hrf & Hkv & Hcore').
+  exists n, (z1 ++ (y, cset_ref (c_ref c + 1) c) :: z2).
+  split; [exact Hn|]. split; [exact Hrf|]. split; [exact Hst|].
+  split; [apply (cupd_split _ _ _ _ (co_stamps _ _ Hcore)); reflexivity|].
+  rewrite Hrf. split; [|split].
+  - constructor.
+    + exact Hcore'.
+    + eapply poolok_step; [exact Hpool| |rewrite (ids_update z1 y c); apply incl_refl].
+      intros w Hw. apply nth_upd_other. intros ->. apply Hw. rewrite ids_app, in_app_iff. right. left. reflexivity.
+    + rewrite (ids_update z1 y c). exact Hhd.
+    + intros w c' Hw. apply in_app_iff in Hw. destruct Hw as [Hw|[[= <- <-]|Hw]].
+      * apply (Hrefs w c'). apply in_app_iff. left. exact Hw.
+      * cbn. specialize (Hrefs y c). assert (0 <= c_ref c) by (apply Hrefs; apply in_app_iff; right; left; reflexivity). lia.
+      * apply (Hrefs w c'). apply in_app_iff. right. right. exact Hw.
+  - constructor; [apply upd_length|rewrite (sid_update z1 y c) by reflexivity; apply incl_refl|intros d; rewrite (ids_update z1 y c); reflexivity].
+  - apply in_app_iff. right. left. reflexivity.
+Qed.
+
+(** * [delete] on a walking state *)
+
+Lemma delete_wst h hd pl zs p cl cs2 :
+  wst h hd pl zs -> In (p, cl) zs -> c_delete (map snd zs) (c_stamp cl) = Ok cs2 ->
+  exists h2 nh zs2 n',
+    n_delete h p = Ok (h2, nh) /\ cs2 = map snd zs2 /\
+    wst h2 (retarget hd nh) pl zs2 /\ wtr h zs h2 zs2 /\
+    nth_error h2 p = Some n' /\ n_ref n' = c_ref cl /\
+    (c_st cl <> StLast -> c_ref cl = 0 -> wst h2 (retarget hd nh) (p :: pl) zs2).
+Proof.
+  intros [Hcore Hpool Hhd Hrefs] Hin Hdel.
+  destruct (delete_sim h zs p cl cs2 Hcore Hin Hdel)
+    as (h2 & nh & zs2 & Hnd & Hcs & Hcore2 & Hlen & Hfr & Hsid & Hhd2 & Hlast & (n' & Hn' & Hr') & Hout & Hrf).
+  assert (Hpool2 : poolok h2 zs2 pl).
+  { eapply poolok_step; [exact Hpool|exact Hfr|apply incl_sid_ids; exact Hsid]. }
+  assert (Hrefs2 : refs_nonneg zs2).
+  { intros y c Hy. destruct (Hrf y c Hy) as (c0 & Hc0 & ->). apply (Hrefs y c0 Hc0). }
+  assert (Hw : wst h2 (retarget hd nh) pl zs2) by (constructor; auto).
+  exists h2, nh, zs2, n'. split; [exact Hnd|]. split; [exact Hcs|]. split; [exact Hw|].
+  split; [constructor; assumption|]. split; [exact Hn'|]. split; [exact Hr'|].
+  intros Hst Hz. constructor; auto.
+  apply (poolok_put h2 zs2 pl p n'); auto.
+  - eapply poolok_notin; [exact Hpool|]. apply (in_map fst) in Hin. exact Hin.
+  - congruence.
+Qed.
+
+(** * One iteration of [next], both levels *)
+
+Lemma next_step_sim h hd pl zs p cl np cs2 c' :
+  wst h hd pl zs -> In (p, cl) zs -> 1 <= c_ref cl -> c_st cl <> StLast ->
+  csucc (c_stamp cl) (map snd zs) = Some np ->
+  (if nstate_eqb (c_st cl) StDeleted && (c_ref cl - 1 <=? 0)
+   then c_delete (cupd (c_stamp cl) (cset_ref (c_ref cl - 1)) (map snd zs)) (c_stamp cl)
+   else Ok (cupd (c_stamp cl) (cset_ref (c_ref cl - 1)) (map snd zs))) = Ok cs2 ->
+  cfind np cs2 = Ok c' ->
+  exists n h3 hd3 pl3 y zs3,
+    nth_error h p = Some n /\ n_st n = c_st cl /\
+    i_next_step h hd pl p n = Ok ((h3, hd3, pl3), y) /\
+    cupd np (cset_ref (c_ref c' + 1)) cs2 = map snd zs3 /\
+    wst h3 hd3 pl3 zs3 /\ wtr h zs h3 zs3 /\
+    In (y, cset_ref (c_ref c' + 1) c') zs3 /\ c_stamp c' = np /\ 0 <= c_ref c'.
+Proof.
+  intros Hw Hin Hr1 Hst Hsucc Hbr Hfind.
+  pose proof (ws_core _ _ _ _ Hw) as Hcore.
+  destruct (ref_update h zs p cl (c_ref cl - 1) Hcore Hin) as (n & z1 & z2 & -> & Hn & Hnst & Hnrf & Hkv & Hcore1).
+  pose proof (co_stamps _ _ Hcore) as Hnd.
+  rewrite (csucc_split _ _ _ _ Hnd) in Hsucc.
+  destruct z2 as [|[y cly] z2]; [discriminate|]. cbn in Hsucc. injection Hsucc as Hnp.
+  (* the successor pointer of the node *)
+  assert (Hnext : n_next n = Some y).
+  { pose proof (co_dseg _ _ Hcore) as Hd. rewrite ids_app, !ids_cons in Hd. cbn [fst] in Hd.
+    apply dseg_app in Hd. destruct Hd as [_ Hd]. cbn [dseg] in Hd. destruct Hd as (m & Hm & _ & Hx & _). congruence. }
+  rewrite (cupd_split _ _ _ _ Hnd) in Hbr by reflexivity.
+  set (r := c_ref cl - 1) in *.
+  set (zs1 := z1 ++ (p, cset_ref r cl) :: (y, cly) :: z2) in *.
+  set (h1 := upd h p (set_ref r)) in *.
+  assert (Hw1 : wst h1 hd pl zs1).
+  { destruct Hw as [_ Hpool Hhd Hrefs]. constructor.
+    - exact Hcore1.
+    - eapply poolok_step; [exact Hpool| |unfold zs1; rewrite (ids_update z1 p cl); apply incl_refl].
+      intros w Hw. apply nth_upd_other. intros ->. apply Hw. rewrite ids_app, in_app_iff. right. left. reflexivity.
+    - unfold zs1. rewrite (ids_update z1 p cl). exact Hhd.
+    - intros w c Hwc. apply in_app_iff in Hwc. destruct Hwc as [Hwc|[[= <- <-]|Hwc]].
+      + apply (Hrefs w c). apply in_app_iff. left. exact Hwc.
+      + cbn. unfold r. lia.
+      + apply (Hrefs w c). apply in_app_iff. right. right. exact Hwc. }
+  assert (Ht1 : wtr h (z1 ++ (p, cl) :: (y, cly) :: z2) h1 zs1).
+  { constructor; [apply upd_length|unfold zs1; rewrite (sid_update z1 p cl) by reflexivity; apply incl_refl|
+                  intros d; unfold zs1; rewrite (ids_update z1 p cl); reflexivity]. }
+  assert (Hin1 : In (p, cset_ref r cl) zs1) by (apply in_app_iff; right; left; reflexivity).
+  (* state after leaving p *)
+  assert (Hmid : exists h2 hd2 pl2 zs2,
+     cs2 = map snd zs2 /\ wst h2 hd2 pl2 zs2 /\ wtr h1 zs1 h2 zs2 /\
+     i_next_step h hd pl p n =
+       (n' <- get h2 y ;; Ok ((upd h2 y (set_ref (n_ref n' + 1)), hd2, pl2), y))).
+  { unfold i_next_step. cbn zeta. rewrite Hnst, Hnrf. fold r. fold h1. rewrite Hnext.
+    destruct (nstate_eqb (c_st cl) StDeleted && (r <=? 0)) eqn:Eb.
+    - apply andb_true_iff in Eb. destruct Eb as [Ed Er]. apply Z.leb_le in Er.
+      assert (Hr0 : c_ref (cset_ref r cl) = 0) by (cbn; unfold r in *; lia).
+      change (c_stamp cl) with (c_stamp (cset_ref r cl)) in Hbr.
+      destruct (delete_wst h1 hd pl zs1 p (cset_ref r cl) cs2 Hw1 Hin1 Hbr)
+        as (h2 & nh & zs2 & n' & Hdel & Hcs & _ & Ht2 & _ & _ & Hput).
+      exists h2, (retarget hd nh), (p :: pl), zs2.
+      split; [exact Hcs|]. split; [apply Hput; [exact Hst|exact Hr0]|]. split; [exact Ht2|].
+      rewrite Hdel. reflexivity.
+    - injection Hbr as <-. exists h1, hd, pl, zs1.
+      split; [reflexivity|]. split; [exact Hw1|]. split; [apply wtr_refl|reflexivity]. }
+  destruct Hmid as (h2 & hd2 & pl2 & zs2 & Hcs2 & Hw2 & Ht2 & Hstep).
+  (* the cell we arrive at is y's *)
+  subst cs2.
+  assert (Hyin : In (y, c') zs2 /\ c_stamp c' = np).
+  { unfold cfind in Hfind. destruct (find (at_stamp np) (map snd zs2)) as [c0|] eqn:Ef; [|discriminate].
+    injection Hfind as ->. apply find_some in Ef. destruct Ef as [Hc Hs]. apply at_stamp_true in Hs.
+    apply in_map_iff in Hc. destruct Hc as ([y' c0] & Heq & Hin2). cbn in Heq. subst c0.
+    split; [|exact Hs].
+    assert (H1 : In (np, y') (sid zs1)) by (apply (wt_sid _ _ _ _ Ht2); apply sid_in; eauto).
+    assert (H2 : In (np, y) (sid zs1)).
+    { apply sid_in. exists cly. split; [|exact Hnp]. unfold zs1. apply in_app_iff. right. right. left. reflexivity. }
+    rewrite (stamp_unique zs1 np y' y (co_stamps _ _ (ws_core _ _ _ _ Hw1)) H1 H2) in Hin2. exact Hin2. }
+  destruct Hyin as [Hyin Hcst].
+  destruct (park_sim h2 hd2 pl2 zs2 y c' Hw2 Hyin) as (n2 & zs3 & Hn2 & Hr2 & Hst2 & Hcupd & Hw3 & Ht3 & Hin3).
+  exists n, (upd h2 y (set_ref (n_ref n2 + 1))), hd2, pl2, y, zs3.
+  split; [exact Hn|]. split; [exact Hnst|].
+  split; [rewrite Hstep, (get_ok _ _ _ Hn2); reflexivity|].
+  split; [rewrite <- Hcst; exact Hcupd|].
+  split; [exact Hw3|]. split; [eapply wtr_trans; [exact Ht1|]; eapply wtr_trans; eassumption|].
+  split; [exact Hin3|]. split; [exact Hcst|]. exact (ws_refs _ _ _ _ Hw2 y c' Hyin).
+Qed.
+
+(** * The loop of [Map.next] *)
+
+Lemma next_sim : forall f2 f1 h hd pl zs p cl cs' st',
+  (f2 <= f1)%nat -> wst h hd pl zs -> In (p, cl) zs -> 1 <= c_ref cl ->
+  c_next f2 (map snd zs) (c_stamp cl) = Ok (cs', st') ->
+  exists h' hd' pl' p' zs',
+    i_next f1 (h, hd, pl) p = Ok ((h', hd', pl'), p') /\ cs' = map snd zs' /\
+    wst h' hd' pl' zs' /\ wtr h zs h' zs' /\
+    (exists c2, In (p', c2) zs' /\ c_stamp c2 = st' /\ 1 <= c_ref c2).
+Proof.
+  induction f2 as [|f2 IH]; intros f1 h hd pl zs p cl cs' st' Hf Hw Hin Hr1 Hnext; [discriminate|].
+  destruct f1 as [|f1]; [lia|].
+  pose proof (ws_core _ _ _ _ Hw) as Hcore.
+  pose proof (in_zs_pay _ _ _ _ Hcore Hin) as (n & Hn & Hnst & Hnrf & _). cbn [fst snd] in *.
+  assert (Hfind : cfind (c_stamp cl) (map snd zs) = Ok cl).
+  { pose proof Hin as Hin'. apply in_split in Hin'. destruct Hin' as (z1 & z2 & ->).
+    apply cfind_split. exact (co_stamps _ _ Hcore). }
+  destruct (nstate_eqb (c_st cl) StLast) eqn:Elast.
+  - (* already at the sentinel *)
+    assert (Ecl : c_st cl = StLast) by (destruct (c_st cl); try discriminate; reflexivity).
+    cbn [c_next] in Hnext. rewrite Hfind in Hnext. cbn [bind] in Hnext. rewrite Ecl in Hnext.
+    injection Hnext as <- <-.
+    cbn [i_next]. rewrite (get_ok _ _ _ Hn). cbn [bind]. rewrite Hnst, Ecl.
+    exists h, hd, pl, p, zs. split; [reflexivity|]. split; [reflexivity|]. split; [exact Hw|].
+    split; [apply wtr_refl|]. exists cl. auto.
+  - assert (Ecl : c_st cl <> StLast) by (intros E; rewrite E in Elast; discriminate).
+    rewrite (c_next_unfold f2 _ _ cl Hfind Ecl) in Hnext.
+    destruct (csucc (c_stamp cl) (map snd zs)) as [np|] eqn:Esucc; [|discriminate].
+    cbn [deref bind] in Hnext.
+    match type of Hnext with bind ?X _ = _ => destruct X as [cs2| |] eqn:Ebr; [|discriminate|discriminate] end.
+    cbn [bind] in Hnext.
+    destruct (cfind np cs2) as [c'| |] eqn:Ef; [|discriminate|discriminate]. cbn [bind] in Hnext.
+    destruct (next_step_sim h hd pl zs p cl np cs2 c' Hw Hin Hr1 Ecl Esucc Ebr Ef)
+      as (n0 & h3 & hd3 & pl3 & y & zs3 & Hn0 & Hst0 & Hstep & Hcupd & Hw3 & Ht3 & Hin3 & Hcst & Hc0).
+    assert (n0 = n) by congruence. subst n0.
+    pose proof (in_zs_pay _ _ _ _ (ws_core _ _ _ _ Hw3) Hin3) as (n3 & Hn3 & Hnst3 & _). cbn [fst snd] in *.
+    assert (Hi : i_next (S f1) (h, hd, pl) p =
+                 (if nstate_eqb (c_st c') StDeleted then i_next f1 (h3, hd3, pl3) y else Ok ((h3, hd3, pl3), y))).
+    { etransitivity; [apply (i_next_unfold f1 h hd pl p n Hn); congruence|].
+      rewrite Hstep. cbn [bind fst]. rewrite (get_ok _ _ _ Hn3). cbn [bind]. rewrite Hnst3. reflexivity. }
+    rewrite Hcupd in Hnext.
+    destruct (nstate_eqb (c_st c') StDeleted) eqn:Edel.
+    + (* a pinned removed entry: continue *)
+      replace np with (c_stamp (cset_ref (c_ref c' + 1) c')) in Hnext by (cbn; exact Hcst).
+      destruct (IH f1 h3 hd3 pl3 zs3 y (cset_ref (c_ref c' + 1) c') cs' st') as (h' & hd' & pl' & p' & zs' & Hi' & Hcs & Hw' & Ht' & Hin');
+        [lia|exact Hw3|exact Hin3| |exact Hnext|].
+      * cbn. lia.
+      * exists h', hd', pl', p', zs'. split; [rewrite Hi; exact Hi'|]. split; [exact Hcs|]. split; [exact Hw'|].
+        split; [eapply wtr_trans; eassumption|exact Hin'].
+    + injection Hnext as <- <-.
+      exists h3, hd3, pl3, y, zs3. split; [exact Hi|]. split; [reflexivity|]. split; [exact Hw3|].
+      split; [exact Ht3|]. exists (cset_ref (c_ref c' + 1) c'). split; [exact Hin3|]. split; [cbn; exact Hcst|cbn; lia].
+Qed.
+
+(** * [getValue] and [release] *)
+
+Lemma fuel_ok h zs : core h zs -> (cfuel (map snd zs) <= fuel_of h)%nat.
+Proof.
+  intros Hcore. unfold cfuel, fuel_of. rewrite map_length.
+  assert (Hle : (length (ids_of zs) <= length (seq 0 (length h)))%nat).
+  { apply NoDup_incl_length; [exact (co_ids _ _ Hcore)|].
+    intros y Hy. apply in_seq. split; [lia|]. cbn.
+    destruct (dseg_in_valid _ _ _ _ y (co_dseg _ _ Hcore) Hy) as (m & Hm).
+    apply nth_error_Some. congruence. }
+  rewrite seq_length in Hle. unfold ids_of in Hle. rewrite map_length in Hle. lia.
+Qed.
+
+Lemma getvalue_sim h hd pl zs p cl cs' st' :
+  wst h hd pl zs -> In (p, cl) zs -> 1 <= c_ref cl ->
+  c_getvalue (map snd zs) (c_stamp cl) = Ok (cs', st') ->
+  exists h' hd' pl' p' zs',
+    i_getvalue (h, hd, pl) p = Ok ((h', hd', pl'), p') /\ cs' = map snd zs' /\
+    wst h' hd' pl' zs' /\ wtr h zs h' zs' /\
+    (exists c2, In (p', c2) zs' /\ c_stamp c2 = st' /\ 1 <= c_ref c2).
+Proof.
+  intros Hw Hin Hr1 Hgv.
+  pose proof (ws_core _ _ _ _ Hw) as Hcore.
+  pose proof (in_zs_pay _ _ _ _ Hcore Hin) as (n & Hn & Hnst & Hnrf & _). cbn [fst snd] in *.
+  assert (Hfind : cfind (c_stamp cl) (map snd zs) = Ok cl).
+  { pose proof Hin as Hin'. apply in_split in Hin'. destruct Hin' as (z1 & z2 & ->).
+    apply cfind_split. exact (co_stamps _ _ Hcore). }
+  unfold c_getvalue in Hgv. rewrite Hfind in Hgv. cbn [bind] in Hgv.
+  unfold i_getvalue. cbn [fst]. rewrite (get_ok _ _ _ Hn). cbn [bind]. rewrite Hnst.
+  destruct (nstate_eqb (c_st cl) StDeleted).
+  - apply (next_sim (cfuel (map snd zs)) (fuel_of h) h hd pl zs p cl cs' st'); auto.
+    apply fuel_ok. exact Hcore.
+  - injection Hgv as <- <-. exists h, hd, pl, p, zs. split; [reflexivity|]. split; [reflexivity|].
+    split; [exact Hw|]. split; [apply wtr_refl|]. exists cl. auto.
+Qed.
+
+Lemma release_sim h hd pl zs p cl cs' :
+  wst h hd pl zs -> In (p, cl) zs -> 1 <= c_ref cl ->
+  c_release (map snd zs) (c_stamp cl) = Ok cs' ->
+  exists h' hd' pl' zs',
+    i_release (h, hd, pl) p = Ok (h', hd', pl') /\ cs' = map snd zs' /\
+    wst h' hd' pl' zs' /\ wtr h zs h' zs'.
+Proof.
+  intros Hw Hin Hr1 Hrel.
+  pose proof (ws_core _ _ _ _ Hw) as Hcore.
+  destruct (ref_update h zs p cl (c_ref cl - 1) Hcore Hin) as (n & z1 & z2 & -> & Hn & Hnst & Hnrf & Hkv & Hcore1).
+  pose proof (co_stamps _ _ Hcore) as Hnd.
+  unfold c_release in Hrel. rewrite (cfind_split _ _ _ _ Hnd) in Hrel. cbn [bind] in Hrel.
+  rewrite (cupd_split _ _ _ _ Hnd) in Hrel by reflexivity.
+  set (r := c_ref cl - 1) in *.
+  set (zs1 := z1 ++ (p, cset_ref r cl) :: z2) in *.
+  set (h1 := upd h p (set_ref r)) in *.
+  assert (Hw1 : wst h1 hd pl zs1).
+  { destruct Hw as [_ Hpool Hhd Hrefs]. constructor.
+    - exact Hcore1.
+    - eapply poolok_step; [exact Hpool| |unfold zs1; rewrite (ids_update z1 p cl); apply incl_refl].
+      intros w Hw. apply nth_upd_other. intros ->. apply Hw. rewrite ids_app, in_app_iff. right. left. reflexivity.
+    - unfold zs1. rewrite (ids_update z1 p cl). exact Hhd.
+    - intros w c Hwc. apply in_app_iff in Hwc. destruct Hwc as [Hwc|[[= <- <-]|Hwc]].
+      + apply (Hrefs w c). apply in_app_iff. left. exact Hwc.
+      + cbn. unfold r. lia.
+      + apply (Hrefs w c). apply in_app_iff. right. right. exact Hwc. }
+  assert (Ht1 : wtr h (z1 ++ (p, cl) :: z2) h1 zs1).
+  { constructor; [apply upd_length|unfold zs1; rewrite (sid_update z1 p cl) by reflexivity; apply incl_refl|
+                  intros d; unfold zs1; rewrite (ids_update z1 p cl); reflexivity]. }
+  assert (Hin1 : In (p, cset_ref r cl) zs1) by (apply in_app_iff; right; left; reflexivity).
+  unfold i_release. rewrite (get_ok _ _ _ Hn). cbn [bind]. rewrite Hnst, Hnrf. fold r h1.
+  destruct (nstate_eqb (c_st cl) StDeleted) eqn:Ed.
+  - change (c_stamp cl) with (c_stamp (cset_ref r cl)) in Hrel.
+    destruct (delete_wst h1 hd pl zs1 p (cset_ref r cl) cs' Hw1 Hin1 Hrel)
+      as (h2 & nh & zs2 & n' & Hdel & Hcs & Hw2 & Ht2 & Hn' & Hr' & Hput).
+    rewrite Hdel. cbn [bind]. rewrite (get_ok _ _ _ Hn'). cbn [bind]. rewrite Hr'. cbn [cset_ref c_ref].
+    destruct (Z.eqb_spec r 0) as [Hz|Hnz].
+    + exists h2, (retarget hd nh), (p :: pl), zs2. split; [reflexivity|]. split; [exact Hcs|].
+      split; [apply Hput; [cbn; destruct (c_st cl); discriminate || congruence|exact Hz]|].
+      eapply wtr_trans; eassumption.
+    + exists h2, (retarget hd nh), pl, zs2. split; [reflexivity|]. split; [exact Hcs|].
+      split; [exact Hw2|]. eapply wtr_trans; eassumption.
+  - injection Hrel as <-. exists h1, hd, pl, zs1. split; [reflexivity|]. split; [reflexivity|].
+    split; [exact Hw1|exact Ht1].
 Qed.
